@@ -208,7 +208,7 @@ impl PoolGen {
         // price lies below 1e-18
         s.push(create_pool_op(w, &u0, &["ueth", "uusdt"], PoolType::ConstantProduct, pool_fee(0, 30, 0, &[]), Some("lop")));
         // a very large pool of two 18-decimals tokens (a trillion whole tokens a side)
-        s.push(create_pool_op(w, &u1, &["udai", "ueth"], PoolType::ConstantProduct, pool_fee(5, 25, 0, &[]), Some("big")));
+        s.push(create_pool_op(w, &u1, &["udai", "ueth"], PoolType::ConstantProduct, PoolFee { protocol_fee: Fee { share: Decimal::from_ratio(1u128, 300u128) }, swap_fee: Fee { share: Decimal::from_atomics(1_234_567_890_123_456u128, 18).unwrap() }, burn_fee: Fee { share: Decimal::zero() }, extra_fees: vec![Fee { share: Decimal::from_atomics(700_000_000_000_001u128, 18).unwrap() }] }, Some("big")));
         let t6 = 10u128.pow(6);
         let t8 = 10u128.pow(8);
         let t18 = 10u128.pow(18);
